@@ -262,7 +262,10 @@ def run(res, ctx):
         ctree = os.path.join(scratch.root, "casetree")
         for rel, body in (("pkg/Settings.py", "import pickle\n"), ("pkg/settings.py", "import subprocess\n"), ("pkg/SETTINGS.py", "assert x\n"), ("Lib/x.py", "exec(c)\n"),
                           ("lib/x.py", "import telnetlib\n"), ("lib/X.py", "password = 'pw'\n"), ("a/B.py", "import pickle\n"), ("A/b.py", "import marshal\n"),
-                          ("z\u00e9.py", "assert y\n"), ("ze\u0301.py", "assert z\n"), ("Z\u00c9.py", "exec(d)\n")):
+                          ("z\u00e9.py", "assert y\n"), ("ze\u0301.py", "assert z\n"), ("Z\u00c9.py", "exec(d)\n"),
+                          # several DIFFERENT bidi control characters on one line: which one is reported (message, column) must not depend on the hash seed
+                          # (seeded change C08-m10 iterated a frozenset of the characters)
+                          ("bidi.py", "access = 'user'\nif access == 'none\u202e \u2066# check\u2069 \u2066':\n    pass  # \u202d x \u2067 y \u202c\n")):
             os.makedirs(os.path.dirname(os.path.join(ctree, rel)), exist_ok=True)
             open(os.path.join(ctree, rel), "w").write(body)
         for fmt in (FORMATS if thorough else ["json", "csv"]):
